@@ -569,3 +569,23 @@ Example ex_slash_stays :
   exists s1, slash ex_cfg s ex_rid = Ok s1
     /\ get (1, 11) (binds s1) = Some (mkBinding 300 ex_raw 5 true TIME0 10).
 Proof. eexists. split; [vm_compute; reflexivity|]. vm_compute. reflexivity. Qed.
+
+(* the hypotheses of slash_ok (Proofs/BankLemmas.v) hold for the issued request *)
+Example ex_slash_ok : exists s1, slash ex_cfg ex_called ex_rid = Ok s1.
+Proof.
+  apply (slash_ok ex_cfg ex_called ex_rid (mkReq 11 100 11 true)
+           (ctx_or_zero ex_called ex_ctx) (mkBinding 240 ex_raw 5 true TIME0 10)).
+  - vm_compute. split; discriminate.
+  - apply ex_called_facts.
+  - vm_compute. reflexivity.
+  - vm_compute. reflexivity.
+  - vm_compute. discriminate.
+  - vm_compute. discriminate.
+  - intros _. vm_compute. reflexivity.
+Qed.
+
+(* C14_bind_ok on the binding of the example history *)
+Example ex_bind_ok :
+  exists s', h_bind ex_cfg (run ex_cfg ex_s0 [ODefine 1 7 true]) 1 11 (CBase 240) (Some ex_raw) 5 10 true = Ok s'
+    /\ min_dep_val ex_cfg (pricing_of s' (1, 11)) = 200.
+Proof. eexists. split; [vm_compute; reflexivity|]. vm_compute. reflexivity. Qed.
